@@ -319,3 +319,14 @@ def even_spread(total, n):
     """As even as possible, larger shares first, summing to total."""
     q, r = divmod(int(total), n)
     return [q + 1 if i < r else q for i in range(n)]
+
+
+def make_spec_bf(rng, cap=20000, **kw):
+    """A spec small enough for the repository's brute-force mode, which enumerates
+    (projects + 1) ** students candidate matchings."""
+    for _ in range(200):
+        spec = make_spec(rng, **kw)
+        if (spec['np'] + 1) ** spec['ns'] <= cap:
+            return spec
+    kw = dict(kw, shape='dense', max_s=4, max_p=4)
+    return make_spec(rng, **kw)
